@@ -46,6 +46,8 @@ template <class Sys> struct Engine {
     int completed_depth = 0;
     uint64_t n_states = 0, n_merge_checks = 0;
     std::vector<Hist> roots;      // extra start histories ("start from non-initial states"); {} is always a root
+    std::vector<std::pair<Hist, int>> late_roots;   // (history, budget): start states explored for `budget` levels only (they enter the
+                                                    // frontier at level max_depth - budget): long prepared histories are costly to replay
 
     static std::string show(const Hist &h)
     {
@@ -164,7 +166,9 @@ template <class Sys> struct Engine {
         std::string base = C.out.empty() ? std::string("bfs") : C.out.substr(0, C.out.size() > 5 ? C.out.size() - 5 : C.out.size());
         bool capped = false;
         int depth = 0;
-        for(; depth < max_depth && !frontier.empty(); ++depth) {
+        auto late_pending = [&](int d) { for(auto &lr : late_roots) if(std::max(0, max_depth - lr.second) >= d) return true; return false; };
+        for(; depth < max_depth && (!frontier.empty() || late_pending(depth)); ++depth) {
+            for(auto &lr : late_roots) if(std::max(0, max_depth - lr.second) == depth) add_root(lr.first);
             int W = std::max(1, std::min<int>(workers, (int)((frontier.size() + 3) / 4)));
             std::vector<pid_t> pids;
             fflush(stdout); fflush(stderr);
